@@ -68,6 +68,7 @@ type vfs struct {
 	tmpCount    int
 	randCount   int
 	snaps       []*inode
+	traceBase   *inode // snapshot of the tree at vpTraceBegin
 }
 
 const (
@@ -970,6 +971,7 @@ func registerVFS(p *Program) {
 		fs := in.env.FS()
 		fs.tracing = true
 		fs.trace = nil
+		fs.traceBase = fs.cloneTree(fs.root)
 		return nil
 	}
 	I["vp:vpTraceEnd"] = func(in *Interp, fr *frame, a []Value) Value {
